@@ -3,7 +3,7 @@ CONSTANTS
   Mode = 32
   Ch = 1
   MaxFrames = 3
-  MaxWrites = 1
+  MaxWrites = 2
   Depth = 0
   GEN = FALSE
   Pre = 0
